@@ -369,7 +369,7 @@ class Gen:
                 ps = re.compile(kv["start"].strip("/"), re.S | re.M)
                 pe = re.compile(kv.get("end", kv.get("endblock", "")).strip("/"), re.S | re.M)
                 ms = list(ps.finditer(mb))
-                if len(ms) != 1:
+                if len(ms) != 1 and not (kv.get("first") and len(ms) > 1):
                     raise ExtractError("%s: start anchor /%s/ matched %d times" % (where, ps.pattern, len(ms)))
                 a = mb.rfind("\n", 0, ms[0].start()) + 1
                 me = [m for m in pe.finditer(mb) if m.start() >= ms[0].start()]
